@@ -403,8 +403,15 @@ class Ellipse:
             return IsophoteList([])
         if fix_center or fix_pa or fix_eps:
             # Note that this overrides the geometry instance for good.
-            self._geometry.fix = np.array([fix_center, fix_center, fix_pa,
-                                           fix_eps])
+            # The parameters fixed at the call add to those already
+            # fixed in the geometry instance.
+            fix = (np.array([fix_center, fix_center, fix_pa, fix_eps])
+                   | np.asarray(self._geometry.fix, dtype=bool))
+            if np.all(fix):
+                warnings.warn(': Everything is fixed. Fit not possible.',
+                              AstropyUserWarning)
+                return IsophoteList([])
+            self._geometry.fix = fix
 
         # first, go from initial sma outwards until
         # hitting one of several stopping criteria.
